@@ -3,6 +3,7 @@ package main
 import (
 	"bytes"
 	"context"
+	"database/sql/driver"
 	"errors"
 	"fmt"
 	"math/big"
@@ -14,16 +15,59 @@ import (
 	"github.com/formancehq/ledger/internal/bus"
 	"github.com/formancehq/ledger/internal/engine/command"
 	"github.com/formancehq/ledger/internal/machine"
+	"github.com/formancehq/ledger/internal/storage/sqlutils"
 	"github.com/formancehq/ledger/xverif/lib/engineh"
 	"github.com/formancehq/ledger/xverif/lib/explore"
 	"github.com/formancehq/ledger/xverif/lib/memstore"
 	"github.com/formancehq/stack/libs/go-libs/metadata"
 	"github.com/formancehq/stack/libs/go-libs/verifrt"
+	"github.com/lib/pq"
 )
 
 var sharedCompiler = command.NewCompiler(1024)
 
 var errInjected = errors.New("injected store failure")
+
+// cancelKindError is what a store operation reports when its context is given up while the statement runs: an error
+// that wraps context.Canceled. injectedError passes it through the tree's own sqlutils.PostgresError, as the real
+// store does with every driver error, so a mapping that turns it into "not found" (or anything else) is part of the run.
+type cancelKindError struct{}
+
+func (cancelKindError) Error() string   { return "injected store failure: context canceled" }
+func (cancelKindError) Unwrap() error   { return context.Canceled }
+func (cancelKindError) Is(t error) bool { return t == errInjected }
+
+// deadlineKindError: the same for an expired deadline.
+type deadlineKindError struct{}
+
+func (deadlineKindError) Error() string   { return "injected store failure: context deadline exceeded" }
+func (deadlineKindError) Unwrap() error   { return context.DeadlineExceeded }
+func (deadlineKindError) Is(t error) bool { return t == errInjected }
+
+// faultKinds: what a PostgreSQL-backed store can report for an operation that did NOT do its work, besides a plain error: the
+// context given up, and server / driver conditions (query cancelled, serialization failure, connection lost, relation or schema
+// missing, bad connection). None of them means "no such row" (only sql.ErrNoRows does) and none means "done".
+var faultKinds = []string{"cancel", "deadline", "pq:57014", "pq:40001", "pq:08006", "pq:42P01", "pq:3F000", "badconn"}
+
+func injectedError(spec *worldSpec) error {
+	kind := spec.FaultKind
+	if spec.CancelKind {
+		kind = "cancel"
+	}
+	switch {
+	case kind == "":
+		return errInjected
+	case kind == "cancel":
+		return sqlutils.PostgresError(cancelKindError{})
+	case kind == "deadline":
+		return sqlutils.PostgresError(deadlineKindError{})
+	case kind == "badconn":
+		return sqlutils.PostgresError(driver.ErrBadConn)
+	case strings.HasPrefix(kind, "pq:"):
+		return sqlutils.PostgresError(&pq.Error{Severity: "ERROR", Code: pq.ErrorCode(kind[3:]), Message: "injected store failure (" + kind + ")"})
+	}
+	panic("unknown fault kind " + kind)
+}
 
 func init() {
 	pond.Spawn = func(f func()) { verifrt.Go(f) }
@@ -71,12 +115,14 @@ type worldSpec struct {
 	Name          string
 	Seed          func(st *memstore.Store)
 	Gen1, Gen2    []reqSpec
-	Crash         bool // a crash may be injected at any point (one per execution)
-	FaultInsert   bool // InsertLogs may fail (one deviation each)
-	StoreGoesDown bool // from one InsertLogs on (one deviation) every InsertLogs fails
-	ReadsGoDown   bool // from one read on (one deviation) every read fails; insertions still work
-	GracefulClose bool // Commander.Close() is called at any moment
-	FaultReads    bool // store reads may fail
+	Crash         bool   // a crash may be injected at any point (one per execution)
+	FaultInsert   bool   // InsertLogs may fail (one deviation each)
+	StoreGoesDown bool   // from one InsertLogs on (one deviation) every InsertLogs fails
+	ReadsGoDown   bool   // from one read on (one deviation) every read fails; insertions still work
+	GracefulClose bool   // Commander.Close() is called at any moment
+	FaultReads    bool   // store reads may fail
+	FaultKind     string // "" (a plain error) or one of faultKinds: what the injected failures look like, after the tree's PostgresError
+	CancelKind    bool   // injected failures are of the "context cancelled while the statement ran" kind, mapped by the tree's PostgresError
 }
 
 type worldRun struct {
@@ -90,6 +136,8 @@ type worldRun struct {
 	DaemonPanic interface{}
 	Pending     []string
 	SeedLen     int
+	// restarts: start-up attempts with one read given up, and how many of them came up regardless
+	InitFaultAttempts, InitSurvivedFault int
 }
 
 func classify(err error) string {
@@ -108,7 +156,7 @@ func classify(err error) string {
 		return "not-found"
 	case strings.Contains(err.Error(), "already taken"):
 		return "ik-taken"
-	case errors.Is(err, errInjected):
+	case errors.Is(err, errInjected), errors.Is(err, driver.ErrBadConn), strings.Contains(err.Error(), "injected store failure"):
 		return "store-error"
 	}
 	return "other-error"
@@ -238,17 +286,28 @@ func runWorld(spec *worldSpec, r *explore.Replayer) *worldRun {
 	w.Pub = &engineh.Publisher{Store: w.Store, Hook: func(topic string) { verifrt.Point("publish " + topic) }}
 	storeDown := false
 	readsDown := false
+	inInit, initRead, initFaultAt, initFaultFired := false, 0, -1, false
 	w.Store.Hook = func(op string) error {
 		isInsert := strings.HasPrefix(op, "InsertLogs")
+		if inInit {
+			// start-up reads (outside the scheduler): the initFaultAt-th one is given up by a cancelled context
+			n := initRead
+			initRead++
+			if n == initFaultAt {
+				initFaultFired = true
+				return sqlutils.PostgresError(cancelKindError{})
+			}
+			return nil
+		}
 		if isInsert && spec.StoreGoesDown {
 			// the store fails from some insertion on and stays down (one deviation: where), unlike a transient fault
 			if storeDown {
 				verifrt.Point(op + " (store down)")
-				return errInjected
+				return injectedError(spec)
 			}
 			if verifrt.Choice(op, 2) == 1 {
 				storeDown = true
-				return errInjected
+				return injectedError(spec)
 			}
 			return nil
 		}
@@ -256,17 +315,17 @@ func runWorld(spec *worldSpec, r *explore.Replayer) *worldRun {
 			// reads fail from some read on and keep failing (an outage of the read path, unlike a single transient fault)
 			if readsDown {
 				verifrt.Point(op + " (reads down)")
-				return errInjected
+				return injectedError(spec)
 			}
 			if verifrt.Choice(op, 2) == 1 {
 				readsDown = true
-				return errInjected
+				return injectedError(spec)
 			}
 			return nil
 		}
 		if (isInsert && spec.FaultInsert) || (!isInsert && spec.FaultReads) {
 			if verifrt.Choice(op, 2) == 1 {
-				return errInjected
+				return injectedError(spec)
 			}
 			return nil
 		}
@@ -288,8 +347,34 @@ func runWorld(spec *worldSpec, r *explore.Replayer) *worldRun {
 		// the process serves several ledgers through one publisher: another ledger's monitor exists before this one's
 		_ = bus.NewLedgerMonitor(w.Pub, "other-ledger")
 		cmd := command.New(w.Store, command.NewDefaultLocker(), sharedCompiler, command.NewReferencer(), bus.NewLedgerMonitor(w.Pub, "l1"))
-		if err := cmd.Init(ctx); err != nil {
-			panic(err)
+		if gen > 1 {
+			// a restart: before the start-up that succeeds, one attempt per start-up read in which that read is given up
+			// (cancelled context). An attempt that reports an error is a process that did not come up (next attempt); an
+			// attempt that comes up in spite of the failed read serves generation 2 and is judged by the scenario's oracle.
+			for k := 0; ; k++ {
+				c := command.New(w.Store, command.NewDefaultLocker(), sharedCompiler, command.NewReferencer(), bus.NewLedgerMonitor(w.Pub, "l1"))
+				inInit, initRead, initFaultAt, initFaultFired = true, 0, k, false
+				err := c.Init(ctx)
+				inInit = false
+				if !initFaultFired {
+					break // fewer than k+1 start-up reads: every one has been tried
+				}
+				w.InitFaultAttempts++
+				if err == nil {
+					w.InitSurvivedFault++
+					cmd = c
+					break
+				}
+			}
+			initFaultAt = -1
+		}
+		if !(gen > 1 && w.InitSurvivedFault > 0) {
+			inInit, initRead, initFaultAt = true, 0, -1
+			err := cmd.Init(ctx)
+			inInit = false
+			if err != nil {
+				panic(err)
+			}
 		}
 		s.Spawn("runner", true, func() { cmd.Run(ctx) })
 		var cancels []context.CancelFunc
